@@ -1,6 +1,7 @@
 #!/bin/sh
 # tools/thorough_all.sh [ids...]: run the thorough tier of every claimed check (sequentially), print one line each
 cd "$(dirname "$0")/.." || exit 2
+mkdir -p .work
 ids="$*"
 [ -z "$ids" ] && ids=$(python3 -c "import json;print(' '.join(c['property_id'] for c in json.load(open('MANIFEST.json'))['checks']))")
 for p in $ids; do
